@@ -606,6 +606,14 @@ def findall_cases(draw, nested=False, max_prob_statements=4):
             prog.append(["cl", head, ["and", [else_l, ["not", cond]]]])
             ite_heads[name] = head[1]
             ncl = max(0, ncl - 2)
+        elif draw(st.integers(0, 1)) == 0:
+            # complementary solutions: two head instances whose proofs are exact complements of one another
+            # (head(t1) :- g.  head(t2) :- \+ g.  with g ground)
+            q = draw(st.sampled_from(base if draw(st.integers(0, 3)) != 0 else lower))
+            g = ["call", q[0], [gterm() for _ in range(q[1])]]
+            prog.append(["cl", [name, [gterm() for _ in range(arity)]], g])
+            prog.append(["cl", [name, [gterm() for _ in range(arity)]], ["not", g]])
+            ncl = max(0, ncl - 2)
         for _ in range(ncl):
             names = _Names()
             kind = draw(st.sampled_from(["rule", "rule", "rule", "prule", "adrule", "fact"]))
